@@ -16,6 +16,7 @@ RULE = ("state graph of the CRC automaton: case ('step', hi) = all 256 start val
         "two-byte strings from start s: crc(ab,s) == crc(b, crc(a,s)) == reference; ('default2',) all strings of "
         "length <= 2 from the default start; ('long', i) long strings end to end. Every case is distinct and non-trivial "
         "(it executes real transitions); counts are the number of transitions actually executed."
+        " ('cold', i0): after a FRESH import of the library (vf/cold.py: lazily built module-level state is empty again) the first call is suspended before each of its line events while a second thread makes its first call; both results and a later call must equal the reference."
         " ('forms', i): every input also as bytearray / list / tuple / memoryview / iterator / generator.")
 ASSUMPTIONS = [
     "crc8404B loops over its input one byte at a time with the running value as only state (read from the source; "
@@ -48,13 +49,60 @@ def cases(ctx):
             comp_starts.append(v)
     cs += [("comp", s) for s in comp_starts]
     cs += [("long", i) for i in range(24)]
+    # cold start: the very FIRST call after a fresh import of the library (lazily built module-level state is still empty),
+    # suspended at every line event while a second thread makes ITS first call; both and a later call must be right
+    cs += [("cold", "count")] + [("cold", i0) for i0 in range(0, cold_run(None)[4], COLD_CHUNK)]
     return cs
+
+
+COLD_A, COLD_B, COLD_C = b"\x01\x80\xfe", b"123456789", bytes(range(250, 256)) + b"\x00"
+COLD_CHUNK = 40
+
+
+def _want(filename):
+    return filename.startswith(target.REPO)
+
+
+def cold_run(at):
+    """fresh import; A's first call suspended before its line event `at` (None: not at all) while B runs in a second thread;
+    -> (result A, result B, B ran, result of a later call, number of line events of A)"""
+    from ..cold import cold
+    from ..preempt import run_preempted, line_events
+    with cold():
+        import bec2format.bec2file as fresh
+        if at is None:
+            ev = line_events(lambda: fresh.crc8404B(COLD_A, 0x1234), _want)
+            return fresh.crc8404B(COLD_A, 0x1234), None, False, fresh.crc8404B(COLD_C), len(ev)
+        a, b, ran = run_preempted(lambda: fresh.crc8404B(COLD_A, 0x1234), lambda: fresh.crc8404B(COLD_B), at, _want)
+        return a, b, ran, fresh.crc8404B(COLD_C), None
 
 
 def run_case(ctx, case):
     kind = case[0]
     o = Outcome("agree", True, extra={})
     n = 0
+    if kind == "cold":
+        exp = (crc16(COLD_A, 0x1234), crc16(COLD_B), crc16(COLD_C))
+        if case[1] == "count":
+            a, _, _, c, nev = cold_run(None)
+            if (a, c) != (exp[0], exp[2]):
+                o.viol("cold|sequential", "first calls after a fresh import: %r, %r; reference %04X, %04X" % (a, c, exp[0], exp[2]))
+            o.extra["cold_line_events"] = nev
+            return o
+        nev = cold_run(None)[4]
+        for at in range(case[1], min(nev, case[1] + COLD_CHUNK)):
+            a, b, ran, c, _ = cold_run(at)
+            n += 1
+            if not ran:
+                o.viol("cold|harness", "preemption point %d of the first call was not reached" % at)
+                return o
+            if (a, b, c) != exp:
+                o.cls = "schedule-dependent"
+                o.viol("cold|threads", "first call after a fresh import suspended before its line event %d while a second thread makes its first "
+                       "call: A -> %r, B -> %r, a later call -> %r; reference %04X, %04X, %04X" % (at, a, b, c, exp[0], exp[1], exp[2]))
+                return o
+        o.extra["cold_preemption_points"] = n
+        return o
     if kind == "forms":
         i = case[1]
         data = [b"\x00", b"\xff", b"123456789", bytes(range(256)), bytes(26)][i] if i < 5 else ctx.sym("c15-form-%d" % i, 3 + 7 * i)
